@@ -7,6 +7,7 @@ import (
 	"vctl/internal/act"
 	"vctl/internal/e1"
 	"vctl/internal/e2"
+	"vctl/internal/e5"
 	"vctl/internal/e6"
 	"vctl/internal/grog"
 )
@@ -20,11 +21,13 @@ var checks = map[string]func(string) int{
 	"C06": e2.RunC06,
 	"C07": e2.RunC07,
 	"C09": e2.RunC09,
+	"C10": e5.RunC10,
 	"C11": e6.RunC11,
 	"C12": e6.RunC12,
 	"C13": e1.RunC13,
 	"C16": e6.RunC16,
 	"C17": e2.RunC17,
+	"C18": e5.RunC18,
 	"C19": e2.RunC19,
 	"C20": e6.RunC20,
 	"C14": e1.RunC14,
